@@ -51,6 +51,15 @@ type c15Rpt struct {
 	Reverse bool           `json:"reverse,omitempty"`
 	Samples []c15RptSample `json:"samples"`
 	RootKey string         `json:"root_key,omitempty"` // mode tagroot
+	// -divide_by (report.Options.Ratio = 1/DivideBy); 0 or 1 = none
+	DivideBy float64 `json:"divide_by,omitempty"`
+}
+
+func (rp *c15Rpt) ratio() float64 {
+	if rp.DivideBy == 0 {
+		return 1
+	}
+	return 1 / rp.DivideBy
 }
 
 func c15rptProfile(from string, rp *c15Rpt) *profile.Profile {
@@ -89,11 +98,17 @@ func c15rptProfile(from string, rp *c15Rpt) *profile.Profile {
 func c15rptInProcess(from, to string, rp *c15Rpt) (out string, panicked string, err error) {
 	p := c15rptProfile(from, rp)
 	units, _ := p.NumLabelUnits()
-	format := map[string]int{"tags": report.Tags, "traces": report.Traces, "top": report.Text, "tree": report.Tree}[rp.Mode]
+	format := map[string]int{"tags": report.Tags, "traces": report.Traces, "top": report.Text, "tree": report.Tree, "peek": report.Tree, "dot": report.Dot}[rp.Mode]
+	var sym *regexp.Regexp
+	if rp.Mode == "peek" {
+		sym = regexp.MustCompile("fn000")
+	}
 	var buf bytes.Buffer
 	panicked = c15safely(func() {
 		rpt := report.New(p, &report.Options{
 			OutputFormat:  format,
+			Symbol:        sym,
+			Ratio:         rp.ratio(),
 			SampleValue:   func(v []int64) int64 { return v[0] },
 			SampleType:    "space",
 			SampleUnit:    from,
@@ -119,9 +134,14 @@ func c15rptCLI(pprof, dir string, id int, from, to string, rp *c15Rpt) (string, 
 	}
 	f.Close()
 	args := []string{"-nodefraction=0", "-edgefraction=0", "-nodecount=100000", "-unit=" + to}
+	if rp.DivideBy != 0 {
+		args = append(args, fmt.Sprintf("-divide_by=%v", rp.DivideBy))
+	}
 	switch rp.Mode {
 	case "tagroot":
 		args = append(args, "-top", "-tagroot="+rp.RootKey)
+	case "peek":
+		args = append(args, "-peek=fn000")
 	default:
 		args = append(args, "-"+rp.Mode)
 	}
@@ -296,6 +316,102 @@ func (x *c15rptCtx) label(site, printed string, v int64, unit, to string) {
 	}
 }
 
+// divided: the sample value after `-divide_by`, as the report's value formatter must print it:
+// v·r truncated toward zero (r = the float64 1/divide_by, taken exactly); where float rounding of
+// the product can fall on either side of an integer both neighbours are admitted.
+func (x *c15rptCtx) divided(v int64) []int64 {
+	r := x.rp.ratio()
+	if !(r > 0 && r != 1) {
+		return []int64{v}
+	}
+	R, ok := c15ratOfFloat(r)
+	if !ok {
+		return []int64{v}
+	}
+	q := new(big.Rat).Mul(new(big.Rat).SetInt64(v), R)
+	t := new(big.Int).Quo(q.Num(), q.Denom()) // big.Int.Quo truncates toward zero
+	if !t.IsInt64() {
+		return []int64{v}
+	}
+	out := []int64{t.Int64()}
+	// nearest integer
+	half := big.NewRat(1, 2)
+	if q.Sign() < 0 {
+		half.Neg(half)
+	}
+	nq := new(big.Rat).Add(q, half)
+	n := new(big.Int).Quo(nq.Num(), nq.Denom())
+	d := c15abs(new(big.Rat).Sub(q, new(big.Rat).SetInt(n)))
+	if n.IsInt64() && d.Cmp(new(big.Rat).Mul(c15abs(q), c15tol)) <= 0 {
+		for _, c := range []int64{n.Int64(), n.Int64() - int64(q.Sign())} {
+			if c != out[0] {
+				out = append(out, c)
+			}
+		}
+	}
+	return out
+}
+
+// valOK: the printed label is an admissible label of the (divided) sample value.
+func (x *c15rptCtx) valOK(printed string, v int64, to string) bool {
+	for _, w := range x.divided(v) {
+		if x.st.checkLabel(printed, w, x.from, to) == "" {
+			return true
+		}
+	}
+	return false
+}
+
+// valLabel checks one label of a SAMPLE value (flat, cum, weight, total …): with -divide_by the
+// quantity printed is the divided value, and an automatic unit must suit THAT value.
+func (x *c15rptCtx) valLabel(site, printed string, v int64, to string) {
+	ws := x.divided(v)
+	if len(ws) == 1 && ws[0] == v && !(x.rp.ratio() > 0 && x.rp.ratio() != 1) {
+		x.label(site, printed, v, x.from, to)
+		return
+	}
+	var why string
+	okw := int64(0)
+	found := false
+	for _, w := range ws {
+		if why = x.st.checkLabel(printed, w, x.from, to); why == "" {
+			okw, found = w, true
+			break
+		}
+	}
+	if !found {
+		x.viol("C15/report/"+x.rp.Mode+"/divide_by/"+site, fmt.Sprintf("%s of %d %q divided by %v (= %d) is printed %q (output unit %q): %s", site, v, x.from, x.rp.DivideBy, ws[0], printed, to, why))
+		return
+	}
+	if x.failed || !c15modelDomain(x.from, to) {
+		return
+	}
+	// model: scaleByRatio, then the label of the divided value
+	R, _ := c15ratOfFloat(x.rp.ratio())
+	rep := x.st.c.Drv.Ask(fmt.Sprintf("c15.format %d %s %s %s %s", v, R.Num().String(), R.Denom().String(), c15tok(x.from), c15tok(to)))
+	t := &c15tr{toks: strings.Fields(rep)}
+	mw := t.big()
+	bk := "theorem formatValue_labels_divided_value / correspondence Measure.formatValue ~ report.New's value formatter"
+	if t.bad {
+		x.failed = true
+		x.st.c.Disagree("C15/model-report/"+x.rp.Mode+"/divide_by/bad-reply", x.cs.Text+": "+c15trunc(rep), bk, x.cs)
+		return
+	}
+	inCands := false
+	for _, w := range ws {
+		inCands = inCands || (mw.IsInt64() && mw.Int64() == w)
+	}
+	if !inCands {
+		x.failed = true
+		x.st.c.Disagree("C15/model-report/"+x.rp.Mode+"/divide_by/divided-value", fmt.Sprintf("%s: %d × %v: model %s, expected %v", x.cs.Text, v, x.rp.ratio(), mw.String(), ws), bk, x.cs)
+		return
+	}
+	if why := x.st.modelLabel(printed, okw, x.from, to); why != "" {
+		x.failed = true
+		x.st.c.Disagree("C15/model-report/"+x.rp.Mode+"/divide_by/"+site, fmt.Sprintf("%s: %s of %d %q divided by %v printed %q (output unit %q): %s", x.cs.Text, site, v, x.from, x.rp.DivideBy, printed, to, why), bk, x.cs)
+	}
+}
+
 // outputUnit: for -top/-tree "minimum" is replaced by ONE unit for the whole report
 // (selectOutputUnit); find it from the printed sample values.
 func (x *c15rptCtx) outputUnit(printedOf func(unit string) bool) (string, bool) {
@@ -311,6 +427,8 @@ func (x *c15rptCtx) outputUnit(printedOf func(unit string) bool) (string, bool) 
 	} else {
 		cands = []string{x.from, "minimum", ""}
 	}
+	// a report that leaves "minimum" unresolved selects a unit per value: also fine
+	cands = append(cands, "minimum")
 	for _, u := range cands {
 		if printedOf(u) {
 			return u, true
@@ -419,7 +537,7 @@ func (x *c15rptCtx) evalTags(out string) {
 				continue
 			}
 			if determined {
-				x.label("tag-weight", r.flat, weight, x.from, x.to)
+				x.valLabel("tag-weight", r.flat, weight, x.to)
 			}
 			// model: the label is the model's label of at least one of the values it reads back to
 			if !x.failed {
@@ -459,8 +577,8 @@ func (x *c15rptCtx) evalTags(out string) {
 			}
 		}
 		if t, ok := totals[k]; ok {
-			x.label("tag-total", t[0], tagTotal, x.from, x.to)
-			x.label("profile-total", t[1], profileTotal, x.from, x.to)
+			x.valLabel("tag-total", t[0], tagTotal, x.to)
+			x.valLabel("profile-total", t[1], profileTotal, x.to)
 		}
 	}
 }
@@ -493,7 +611,7 @@ func (x *c15rptCtx) evalTraces(out string) {
 		}
 		seen++
 		s := x.rp.Samples[i]
-		x.label("sample-value", val, s.Value, x.from, x.to)
+		x.valLabel("sample-value", val, s.Value, x.to)
 		perKey := map[string][]int64{}
 		for _, nl := range s.Labels {
 			perKey[nl.Key] = append(perKey[nl.Key], nl.Value)
@@ -514,17 +632,35 @@ func (x *c15rptCtx) evalTraces(out string) {
 	}
 }
 
+// dot: N1 [label="fn000\n4kB (12.5%)" …]  /  N2 [label="root\n0 of 32kB (100%)" …]  /
+// N2 -> N1 [label=" 4kB" … tooltip="root -> fn000 (4kB)" …]
+var c15dotNode = regexp.MustCompile(`^N\d+ \[label="([^"\\]+)\\n(\S+)(?: of (\S+))? \(`)
+var c15dotEdge = regexp.MustCompile(`^N\d+ -> N\d+ \[label=" (\S+)".* tooltip="\S+ -> (\S+) \(`)
+
 var c15legend = regexp.MustCompile(`Showing nodes accounting for (\S+), (\S+) of (\S+) total`)
 
 // evalTop handles -top and -tree (and -top -tagroot=key when rootKey != "").
-func (x *c15rptCtx) evalTop(out string, tree bool, rootKey string) {
+func (x *c15rptCtx) evalTop(out string, kind string, rootKey string) {
 	type node struct{ flat, cum, name string }
 	type edge struct{ w, name string }
 	var nodes []node
 	var edges []edge
 	hdr := false
+	tree := kind == "tree" || kind == "peek"
 	for _, ln := range strings.Split(out, "\n") {
 		f := strings.Fields(ln)
+		if kind == "dot" {
+			if m := c15dotNode.FindStringSubmatch(ln); m != nil {
+				cum := m[3]
+				if cum == "" {
+					cum = m[2]
+				}
+				nodes = append(nodes, node{m[2], cum, m[1]})
+			} else if m := c15dotEdge.FindStringSubmatch(ln); m != nil {
+				edges = append(edges, edge{m[1], m[2]})
+			}
+			continue
+		}
 		if !hdr {
 			if len(f) >= 5 && f[0] == "flat" && f[1] == "flat%" {
 				hdr = true
@@ -564,15 +700,22 @@ func (x *c15rptCtx) evalTop(out string, tree bool, rootKey string) {
 	U, ok := x.outputUnit(func(u string) bool {
 		for i, s := range x.rp.Samples {
 			n, ok := leaf[fmt.Sprintf("fn%03d", i)]
-			if !ok || x.st.checkLabel(n.flat, s.Value, x.from, u) != "" {
+			if ok && !x.valOK(n.flat, s.Value, u) {
 				return false
 			}
+		}
+		// labels that print as "0" fit every unit: the totals decide then
+		if r, ok := leaf["root"]; ok && !x.valOK(r.cum, sum, u) {
+			return false
+		}
+		if m := c15legend.FindStringSubmatch(out); m != nil && !x.valOK(m[3], abssum, u) {
+			return false
 		}
 		return true
 	})
 	for i := range x.rp.Samples {
-		if _, ok := leaf[fmt.Sprintf("fn%03d", i)]; !ok {
-			x.viol("C15/report/"+x.rp.Mode+"/rows-missing", fmt.Sprintf("fn%03d is not listed", i))
+		if _, ok := leaf[fmt.Sprintf("fn%03d", i)]; !ok && (kind != "peek" || i == 0) {
+			x.viol("C15/report/"+x.rp.Mode+"/rows-missing", fmt.Sprintf("fn%03d is not listed in:\n%s", i, c15trunc(out)))
 			return
 		}
 	}
@@ -581,22 +724,25 @@ func (x *c15rptCtx) evalTop(out string, tree bool, rootKey string) {
 		return
 	}
 	for i, s := range x.rp.Samples {
-		n := leaf[fmt.Sprintf("fn%03d", i)]
-		x.label("flat", n.flat, s.Value, x.from, U)
-		x.label("cum", n.cum, s.Value, x.from, U)
+		n, listed := leaf[fmt.Sprintf("fn%03d", i)]
+		if !listed {
+			continue
+		}
+		x.valLabel("flat", n.flat, s.Value, U)
+		x.valLabel("cum", n.cum, s.Value, U)
 	}
 	if r, ok := leaf["root"]; ok {
-		x.label("flat", r.flat, 0, x.from, U)
-		x.label("cum", r.cum, sum, x.from, U)
+		x.valLabel("flat", r.flat, 0, U)
+		x.valLabel("cum", r.cum, sum, U)
 	}
 	for _, e := range edges {
 		var i int
 		if _, err := fmt.Sscanf(e.name, "fn%03d", &i); err == nil && i < len(x.rp.Samples) {
-			x.label("edge", e.w, x.rp.Samples[i].Value, x.from, U)
+			x.valLabel("edge", e.w, x.rp.Samples[i].Value, U)
 		}
 	}
 	if m := c15legend.FindStringSubmatch(out); m != nil {
-		x.label("legend-total", m[3], abssum, x.from, U)
+		x.valLabel("legend-total", m[3], abssum, U)
 	} else {
 		x.viol("C15/report/"+x.rp.Mode+"/legend-missing", "no 'Showing nodes accounting for' line")
 	}
@@ -641,11 +787,11 @@ func (st *c15State) rptEval(cs c15Case, out string) bool {
 	case "traces":
 		x.evalTraces(out)
 	case "top":
-		x.evalTop(out, false, "")
-	case "tree":
-		x.evalTop(out, true, "")
+		x.evalTop(out, "top", "")
+	case "tree", "peek", "dot":
+		x.evalTop(out, rp.Mode, "")
 	case "tagroot":
-		x.evalTop(out, false, rp.RootKey)
+		x.evalTop(out, "top", rp.RootKey)
 	}
 	fams := map[int]bool{}
 	for _, u := range x.units {
@@ -653,7 +799,7 @@ func (st *c15State) rptEval(cs c15Case, out string) bool {
 			fams[r.fam] = true
 		}
 	}
-	return len(fams) >= 2 || ((rp.Mode == "top" || rp.Mode == "tree") && st.recognise(x.from).known)
+	return len(fams) >= 2 || ((rp.Mode == "top" || rp.Mode == "tree" || rp.Mode == "peek" || rp.Mode == "dot") && st.recognise(x.from).known)
 }
 
 func c15rptText(cs c15Case) string {
@@ -669,6 +815,9 @@ func c15rptText(cs c15Case) string {
 	}
 	if rp.RootKey != "" {
 		b.WriteString(", -tagroot=" + rp.RootKey)
+	}
+	if rp.DivideBy != 0 {
+		fmt.Fprintf(&b, ", -divide_by=%v", rp.DivideBy)
 	}
 	b.WriteString("; samples")
 	for _, s := range rp.Samples {
@@ -773,7 +922,13 @@ func (st *c15State) genRpt(r *Rng) (from, to string, rp *c15Rpt) {
 			to = t.names[0]
 		}
 	}
+	if r.Chance(15) {
+		to = "auto"
+	}
 	rp = &c15Rpt{}
+	if r.Chance(65) {
+		rp.DivideBy = []float64{1024, 1000, 0.001, 3, 60, 0.5, 1e6, 1, 1048576, 7}[r.Intn(10)]
+	}
 	ns := 2 + r.Intn(5)
 	for i := 0; i < ns; i++ {
 		s := c15RptSample{Value: int64(1 + r.Intn(4000))}
@@ -814,7 +969,7 @@ func (st *c15State) reportStream(r *Rng) {
 	var jobs []cliJob
 	for k := 0; k < n; k++ {
 		from, to, rp := st.genRpt(r)
-		for _, mode := range []string{"tags", "traces", "top", "tree"} {
+		for _, mode := range []string{"tags", "traces", "top", "tree", "peek", "dot"} {
 			for _, rev := range []bool{false, true} {
 				q := *rp
 				q.Mode, q.Reverse = mode, rev
@@ -832,10 +987,10 @@ func (st *c15State) reportStream(r *Rng) {
 			c.Res.Sample(map[string]any{"kind": "rpt", "from": from, "to": to, "samples": rp.Samples})
 		}
 		// a share of the cases also through the real binary
-		if k%6 == 0 && c.Pprof != "" {
-			modes := []string{"tags", "traces", "tree", "tagroot"}
+		if k%4 == 0 && c.Pprof != "" {
+			modes := []string{"tags", "traces", "tree", "tagroot", "peek", "dot", "top"}
 			q := *rp
-			q.CLI, q.Mode, q.Reverse = true, modes[(k/6)%len(modes)], (k/6)%2 == 1
+			q.CLI, q.Mode, q.Reverse = true, modes[(k/4)%len(modes)], (k/4)%2 == 1
 			if q.Mode == "tagroot" {
 				q.RootKey = "taga"
 			}
